@@ -37,7 +37,15 @@ fn to_rot_q(d: &mut Draw) -> Outcome {
 }
 
 fn to_rot_f64(d: &mut Draw) -> Outcome {
-    let (x, y, z) = (d.f64_in(-7.0, 7.0), d.f64_in(-7.0, 7.0), d.f64_in(-7.0, 7.0));
+    // a few turns; exact quarter-turn multiples and zeros; or many turns (the statement says "for all angles": sin and
+    // cos of the float angle itself are what every representation must be built from)
+    let ang = |d: &mut Draw| match d.int(0, 7) {
+        0 => (d.int(-8, 8) as f64) * std::f64::consts::FRAC_PI_2,
+        1 => d.f64_slog(7.0, 1e12),
+        2 => d.f64_slog(1e-14, 1e-3),
+        _ => d.f64_in(-7.0, 7.0),
+    };
+    let (x, y, z) = (ang(d), ang(d), ang(d));
     let use_deg = d.bool();
     d.note("(x,y,z) rad, given as Deg?", &((x, y, z), use_deg));
     let want = rot_x(x.sin(), x.cos()).mul(&rot_y(y.sin(), y.cos())).mul(&rot_z(z.sin(), z.cos()));
@@ -49,7 +57,8 @@ fn to_rot_f64(d: &mut Draw) -> Outcome {
         let e = Euler { x: Rad(x), y: Rad(y), z: Rad(z) };
         (e.into(), e.into(), e.into(), e.into())
     };
-    let tol = 1e-12;
+    // a Deg argument is converted once (relative error 2 eps in the angle)
+    let tol = 1e-12 + if use_deg { 4.0 * f64::EPSILON * (x.abs() + y.abs() + z.abs()) } else { 0.0 };
     let e3 = m3.rm().max_abs_diff(&want);
     ensure!(e3 <= tol, "matrix3-xyz-f64", "Matrix3::from(Euler) differs from Rx Ry Rz by {:e}", e3);
     let e4 = m4.rm().max_abs_diff(&want.embed(4));
@@ -183,7 +192,7 @@ pub fn property() -> Property {
         };
     }
     add!("euler_to_rotation-Q", "Q", to_rot_q, 5000, 300_000, 24, &[("generic", 200)], "sin and cos of all three angles non-zero with |sin| != |cos|");
-    add!("euler_to_rotation-f64", "f64", to_rot_f64, 8000, 500_000, 16, &[("rad", 200), ("deg", 200)], "every generated triple (angles in +-7 rad) is non-trivial");
+    add!("euler_to_rotation-f64", "f64", to_rot_f64, 8000, 500_000, 16, &[("rad", 200), ("deg", 200)], "every generated triple (a few turns, exact quarter-turn multiples, tiny angles, many-turn angles up to 1e12 rad) is non-trivial");
     add!("quaternion_to_euler-f64", "f64", extract_f64, 20000, 1_000_000, 24,
         &[("regular", 100), ("regular-exact-zeros", 60), ("regular-near-cone", 50), ("cone+", 50), ("cone-", 50), ("boundary", 20)],
         "every generated unit quaternion; classes regular / near-cone / cone+ / cone- / boundary band are all required");
